@@ -81,7 +81,11 @@ def resume_case(cfg, cuts, N, out, roundtrip='pickle'):
         if cut == N:
             break
         st = s.state
-        if roundtrip == 'pickle':
+        if roundtrip == 'late':
+            # the state object is held while the sampler it came from runs on, and is serialised only then
+            s.run(3)
+            st = pickle.loads(pickle.dumps(st))
+        elif roundtrip == 'pickle':
             st = pickle.loads(pickle.dumps(st))
         elif roundtrip == 'subprocess':
             st = through_subprocess(st)
@@ -101,6 +105,43 @@ def resume_case(cfg, cuts, N, out, roundtrip='pickle'):
     if d:
         return dict(what='temperature ladder of the resumed run differs from the uninterrupted run: %s' % d,
                     replay=dict(config=cfg, cuts=list(cuts), N=N, roundtrip=roundtrip))
+    return None
+
+
+def ladder_restore_case(rng, out):
+    """a saved ladder is restored as saved, whatever it looks like: with a finite hottest temperature the annealer can take the second-hottest
+    beta below the fixed hottest one for an iteration, so a saved ladder need not be ordered"""
+    import numpy
+    from epsie.samplers import ParallelTemperedSampler
+    from epsie.chain.ptchain import DynamicalAnnealer
+    from ..models import GaussModel
+    nt, nch = rng.choice([4, 5]), rng.choice([1, 2])
+    betas = [1.0] + sorted([round(rng.uniform(0.2, 0.9), 3) for _ in range(nt - 2)], reverse=True) + [0.1]
+
+    def build(seed):
+        smp = ParallelTemperedSampler(['x'], GaussModel(['x'], sigma=1.0, log=False), nch, betas=numpy.array(betas), swap_interval=1,
+                                      adaptive_annealer=DynamicalAnnealer(tau=20, nu=2, Tmax_prior=False), seed=seed)
+        return smp
+    s = build(3)
+    s.start_position = {'x': numpy.full((nt, nch), 0.2)}
+    s.run(3)
+    st = pickle.loads(pickle.dumps(s.state))
+    want = []
+    for ci in range(nch):
+        lad = numpy.array(st[ci]['betas'], dtype=float)
+        lad[-2] = lad[-1] * 0.8                       # the second-hottest level has overshot the fixed hottest one
+        st[ci]['betas'] = lad
+        want.append([float(b) for b in lad])
+    fresh = build(4)
+    fresh.set_state(pickle.loads(pickle.dumps(st)))
+    out.evaluations += 1
+    out.count('ladder_restore_cases')
+    for ci, ch in enumerate(fresh.chains):
+        got = [float(b) for b in ch.betas]
+        lv = [float(c.beta) for c in ch.chains]
+        if got != want[ci] or lv != want[ci]:
+            return dict(what='a saved ladder %s was restored as %s (levels sample at %s)' % (want[ci], got, lv),
+                        replay=dict(kind='ladder_restore', betas=betas, saved=want[ci], restored=got, level_betas=lv))
     return None
 
 
@@ -248,7 +289,7 @@ def run(seed, tier):
                 ncut = rng.choice([1, 1, 2, 3])
                 cutsets.append(sorted(rng.sample(range(1, N), min(ncut, N - 1))))
         for cuts in cutsets:
-            rt = 'subprocess' if (thorough and rng.random() < 0.05) else 'pickle'
+            rt = 'subprocess' if (thorough and rng.random() < 0.05) else ('late' if rng.random() < 0.3 else 'pickle')
             try:
                 v = resume_case(cfg, cuts, N, out, roundtrip=rt)
             except Exception as e:      # noqa
@@ -287,7 +328,7 @@ def run(seed, tier):
         N = 14
         cut = rng.choice([c for c in range(1, N) if c % cfg['k'] != 0])
         try:
-            v = resume_case(cfg, [cut], N, out)
+            v = resume_case(cfg, [cut], N, out, roundtrip='late' if i % 2 else 'pickle')
         except Exception as e:      # noqa
             import traceback
             out.corr_failures.append(dict(note='real sampler raised %r' % (e,), case=dict(config=cfg, cuts=[cut], N=N),
@@ -298,6 +339,11 @@ def run(seed, tier):
         out.nontrivial.add(repr((cfg, [cut])))
         if v:
             out.violations.append(v)
+    for _ in range(6 if thorough else 2):
+        v = ladder_restore_case(rng, out)
+        if v:
+            out.violations.append(v)
+            break
     if known_annealer is not None:
         out.variant['pt_state_has_ladder'] = False
         out.known_hits.append(dict(flag='pt_state_has_ladder', what=known_annealer['what'], witness=known_annealer['replay']))
